@@ -128,34 +128,34 @@ auto make_tk()
         terms(ta, tb, tc, td, te, tf),
         nterms(n0, n1, n2, n3, n4, n5, park),
         rules(
-            n0(ta, n0) >= KF<0, NV>{},
+            park(ta, n0) >= KF<0, NV>{},
             n0(ta) >= KF<1, NV>{},
-            n0(n0, ta, n0) >= KF<2, NV>{},
-            n0() >= KF<3, NV>{},
-            n0(n0),
-            n0(n0, ta) >= KF<5, NV>{},
-            n0(n0, error) >= KF<6, NV>{},
-            n0(ta, n0, ta) >= KF<7, NV>{},
-            n0(n0) >= KF<8, NV>{},
-            n0(n0, n0) >= KF<9, NV>{},
-            n0() >= KF<10, NV>{},
-            n0(n0, error, ta) >= KF<11, NV>{},
-            n0(ta) >= KF<12, NV>{},
-            n0(ta, ta) >= KF<13, NV>{},
-            n0(error) >= KF<14, NV>{},
-            n0(n0, n0, ta) >= KF<15, NV>{},
-            n0(n0),
-            n0(ta, n0) >= KF<17, NV>{},
-            n0() >= KF<18, NV>{},
-            n0(error, ta) >= KF<19, NV>{},
-            n0(n0, ta, n0) >= KF<20, NV>{},
-            n0(ta) >= KF<21, NV>{},
-            n0(n0, n0) >= KF<22, NV>{},
-            n0(n0, ta) >= KF<23, NV>{},
-            n0(ta, n0, n0) >= KF<24, NV>{},
-            n0(n0) >= KF<25, NV>{},
-            n0(n0, n0, n0) >= KF<26, NV>{},
-            n0(ta, n0, error) >= KF<27, NV>{}
+            park(n0, ta, n0) >= KF<2, NV>{},
+            park() >= KF<3, NV>{},
+            park(n0),
+            park(n0, ta) >= KF<5, NV>{},
+            park(n0, error) >= KF<6, NV>{},
+            park(ta, n0, ta) >= KF<7, NV>{},
+            park(n0) >= KF<8, NV>{},
+            park(n0, n0) >= KF<9, NV>{},
+            park() >= KF<10, NV>{},
+            park(n0, error, ta) >= KF<11, NV>{},
+            park(ta) >= KF<12, NV>{},
+            park(ta, ta) >= KF<13, NV>{},
+            park(error) >= KF<14, NV>{},
+            park(n0, n0, ta) >= KF<15, NV>{},
+            park(n0),
+            park(ta, n0) >= KF<17, NV>{},
+            park() >= KF<18, NV>{},
+            park(error, ta) >= KF<19, NV>{},
+            park(n0, ta, n0) >= KF<20, NV>{},
+            park(ta) >= KF<21, NV>{},
+            park(n0, n0) >= KF<22, NV>{},
+            park(n0, ta) >= KF<23, NV>{},
+            park(ta, n0, n0) >= KF<24, NV>{},
+            park(n0) >= KF<25, NV>{},
+            park(n0, n0, n0) >= KF<26, NV>{},
+            park(ta, n0, error) >= KF<27, NV>{}
         ),
         use_generated_lexer{},
         tpl::small_limits{}
